@@ -120,6 +120,7 @@ let run path =
     incr ncase;
     let st = ref (M.e2e_new (czi 1) (czi 1024) (czi 0) false) in
     let stop = ref false in
+    let sim_mode = ref false in
     List.iteri (fun i toks ->
       if not !stop then begin
         incr records;
@@ -127,7 +128,7 @@ let run path =
         match toks with
         | ["new"; tsn; buf; mx; il] -> st := M.e2e_new (cz tsn) (cz buf) (cz mx) (il = "1")
         | "load" :: buf :: mx :: il :: rest ->
-            incr n_load;
+            incr n_load; sim_mode := true;
             (try st := parse_state buf mx (il = "1") rest
              with Failure m -> bad ("unparsed load: " ^ m) "" "")
         | "arr" :: rest ->
@@ -158,6 +159,9 @@ let run path =
         | "state" :: _ ->
             incr n_state;
             let im = String.concat " " toks in
+            (* simulator records: the SACK emitted while the packet is processed consumes the duplicate list
+               (popDuplicates, C05); the observer prints it empty and it is dropped here too *)
+            if !sim_mode then st := { !st with M.e2e_pq = { (!st).M.e2e_pq with M.dups = [] } };
             let m = dump_state !st in
             if m <> im then bad "state" m im
         | _ -> bad "unparsed line" "" (String.concat " " toks)
